@@ -129,7 +129,7 @@ def classify(prop, res, inst):
             rec.update(kind=v["kind"], where=v["where"], detail=v["replay"], cex=v["cex"], summary=f"{inst['op']}{inst['args']} on {res['seed']}: {v['kind']} {v['replay']}", dedup=f"{res['seed']}|{inst['op']}|{v['kind']}")
             yield rec
         cc = inst.get("c04_compile")
-        if cc and cc != "ok" and cc not in ("MemGenError", "ConfigError", "TypeError", "ParallelAnalysisError"):
+        if cc and cc != "ok" and inst.get("c04_p_compiles") and cc not in ("MemGenError", "ConfigError", "TypeError", "ParallelAnalysisError"):
             rec = dict(base)
             rec.update(kind="compile_crash", detail=f"{cc}: {inst.get('c04_compile_msg')}", summary=f"{inst['op']}{inst['args']} on {res['seed']}: compile raised undocumented {cc}", dedup=f"{res['seed']}|{inst['op']}|compile|{cc}")
             yield rec
